@@ -80,6 +80,36 @@ fn classify(file: &str, op: &str) -> (Origin, String) {
     }
 }
 
+static RUN_DEADLINE_MS: std::sync::atomic::AtomicU64 = std::sync::atomic::AtomicU64::new(0);
+
+fn now_ms() -> u64 {
+    static T0: std::sync::OnceLock<std::time::Instant> = std::sync::OnceLock::new();
+    T0.get_or_init(std::time::Instant::now).elapsed().as_millis() as u64 + 1
+}
+
+/// A run that does not come back (an operation of the repository loops without ever
+/// polling a clock) would hang the whole check.  The watchdog thread writes a record
+/// naming the operation in progress and kills the process; the coordinator treats it
+/// like any other aborting run.  Wall-clock time is used only for this safety net; it
+/// never influences a run that terminates.
+pub fn start_watchdog() {
+    let limit_ms: u64 = std::env::var("VERIF_RUN_TIMEOUT_S").ok().and_then(|s| s.parse::<u64>().ok()).unwrap_or(150) * 1000;
+    let _ = now_ms();
+    std::thread::spawn(move || loop {
+        std::thread::sleep(std::time::Duration::from_millis(500));
+        let started = RUN_DEADLINE_MS.load(std::sync::atomic::Ordering::Relaxed);
+        if started != 0 && now_ms().saturating_sub(started) > limit_ms {
+            let run = CURRENT_RUN.load(std::sync::atomic::Ordering::Relaxed);
+            let rec = json!({"run": run, "file": "", "line": 0, "message": format!("run did not finish within {} s", limit_ms / 1000), "op": current_op(),
+                "origin": "repo", "frame": "", "overrun": false, "hang": true, "tape": crate::tape::mirror_snapshot()});
+            let mut out = std::io::stdout().lock();
+            let _ = writeln!(out, "P {rec}");
+            let _ = out.flush();
+            std::process::exit(86);
+        }
+    });
+}
+
 pub fn install_hook() {
     panic::set_hook(Box::new(|info| {
         let (file, line) = info.location().map(|l| (l.file().to_string(), l.line())).unwrap_or_default();
@@ -99,7 +129,7 @@ pub fn install_hook() {
         // kills the process right after this hook returns
         let run = CURRENT_RUN.load(std::sync::atomic::Ordering::Relaxed);
         let rec = json!({"run": run, "file": file, "line": line, "message": message, "op": op,
-            "origin": if origin == Origin::Repo { "repo" } else { "harness" }, "frame": frame, "overrun": overrun});
+            "origin": if origin == Origin::Repo { "repo" } else { "harness" }, "frame": frame, "overrun": overrun, "tape": crate::tape::mirror_snapshot()});
         let mut out = std::io::stdout().lock();
         let _ = writeln!(out, "P {rec}");
         let _ = out.flush();
@@ -126,6 +156,13 @@ fn message_class(m: &str) -> &'static str {
 
 /// turn a trap record into a violation of the appropriate property
 pub fn trap_violation(claim: Prop, file: &str, line: u32, message: &str, op: &str, aborted: bool, frame: &str) -> Violation {
+    trap_violation_kind(claim, file, line, message, op, if aborted { "abort" } else { "panic" }, frame)
+}
+
+/// kind: "panic" (unwinding), "abort" (process died), "hang" (killed by the watchdog)
+pub fn trap_violation_kind(claim: Prop, file: &str, line: u32, message: &str, op: &str, kind: &str, frame: &str) -> Violation {
+    let aborted = kind == "abort";
+    let hang = kind == "hang";
     // a trap inside the very operation a property makes promises about is a violation of
     // that property (the operation did not deliver); any other trap belongs to C07
     let (prop, class) = match (claim, op) {
@@ -143,9 +180,18 @@ pub fn trap_violation(claim: Prop, file: &str, line: u32, message: &str, op: &st
         _ => (Prop::C07, if aborted { "trap.abort" } else { "trap.panic" }),
     };
     let at = repo_relative(file);
+    let class = if hang {
+        if prop == Prop::C07 {
+            "trap.hang".to_string()
+        } else {
+            class.replace(".trap", ".hang")
+        }
+    } else {
+        class.to_string()
+    };
     Violation {
         prop,
-        class: class.to_string(),
+        class,
         features: format!("op={op};at={at};msg={}", message_class(message)),
         detail: format!("{message} at {file}:{line} during {op} {frame}"),
     }
@@ -183,6 +229,16 @@ fn dispatch(ctx: &mut Ctx) -> Step {
 }
 
 pub fn run_one(claim: Prop, tier: Tier, tape: Tape, stats: &mut Stats, env: &Env) -> RunOutput {
+    let t0 = now_ms();
+    RUN_DEADLINE_MS.store(t0, std::sync::atomic::Ordering::Relaxed);
+    let r = run_one_inner(claim, tier, tape, stats, env);
+    RUN_DEADLINE_MS.store(0, std::sync::atomic::Ordering::Relaxed);
+    // wall-clock statistic only (never an input of a run)
+    stats.max("max.run-wall-ms", now_ms().saturating_sub(t0));
+    r
+}
+
+fn run_one_inner(claim: Prop, tier: Tier, tape: Tape, stats: &mut Stats, env: &Env) -> RunOutput {
     let mut ctx = Ctx { tape, claim, mode: claim, tier, stats, obs: crate::tape::FNV0, env };
     set_op(Op::Harness);
     clock::OVERRUN.with(|o| o.set(false));
